@@ -129,6 +129,14 @@ def note_rejections(chk, cases, results):
     return total
 
 
+def mark_traced(payload, n, rng):
+    """Direction T uses a seeded sample of the cases: only those record events."""
+    idx = list(range(len(payload)))
+    rng.shuffle(idx)
+    for i in idx[:n]:
+        payload[i]["ev"] = True
+
+
 def collect_events(results, limit=None, rng=None):
     idx = list(range(len(results)))
     if limit is not None and len(idx) > limit:
@@ -200,6 +208,7 @@ def run_c02(chk):
     ]
     cases = model_programs(chk, chk.tier, "programs")
     payload = [{"id": c["id"], "focus": c["focus"], "ast": c["ast"], "contract": c["contract"]} for c in cases]
+    mark_traced(payload, 700 if quick else 5000, rng)
     res = chk.replay("schema-contract", payload, "contract", workers=8, timeout="30s")
     chk.extra_cov["compiler_crashes"] = crashes_to_rejections(res)
     chk.absorb("schema-contract", payload, res)
@@ -207,7 +216,7 @@ def run_c02(chk):
     chk.extra_cov["programs"] = len(payload)
     chk.extra_cov["focus_constructs"] = len({c["focus"] for c in cases})
     # direction T
-    events, n = collect_events(res, limit=700 if quick else 5000, rng=rng)
+    events, n = collect_events(res)
     verdict, tr, done = validate(chk, "J5CompileTraceMC.tla", "J5Compile_trace.cfg", events, "trace",
                                  ("LawNumbers", "LawEnumNumbers", "LawNames", "LawAppend"))
     finish_trace(chk, verdict, tr, done, n, len(events), "J5CompileTrace")
@@ -291,6 +300,7 @@ def run_c13(chk):
             befores.append({"ast": pre[k], "edits": labels, "listed": kinds <= LISTED_EDITS})
         payload.append({"id": c["id"] + ":" + str(len(h)), "focus": c["focus"], "ast": c["ast"], "befores": befores})
     rng.shuffle(payload)
+    mark_traced(payload, 1500 if quick else 10000, rng)
     res = chk.replay("schema-append", payload, "append", workers=8, timeout="60s")
     chk.extra_cov["compiler_crashes"] = crashes_to_rejections(res)
     chk.absorb("schema-append", payload, res)
@@ -298,7 +308,7 @@ def run_c13(chk):
     chk.extra_cov["histories"] = len(payload)
     chk.extra_cov["version_pairs"] = sum(len(p["befores"]) for p in payload)
     chk.extra_cov["listed_edit_pairs"] = sum(1 for p in payload for b in p["befores"] if b["listed"])
-    events, n = collect_events(res, limit=1500 if quick else 10000, rng=rng)
+    events, n = collect_events(res)
     verdict, tr, done = validate(chk, "J5CompileTraceMC.tla", "J5Compile_trace.cfg", events, "trace",
                                  ("LawAppend",))
     finish_trace(chk, verdict, tr, done, n, len(events), "J5CompileTrace")
@@ -494,7 +504,7 @@ def selftest(prop):
         if missed:
             fail("%d corrupted predictions were not flagged by schema-contract" % missed)
         # 2. pristine trace accepted, corrupted recorded field number rejected by the law, corrupted type counted as drift
-        good = [{"id": c["id"], "focus": c["focus"], "ast": c["ast"], "contract": c["contract"]} for c in cases[:60]]
+        good = [{"id": c["id"], "focus": c["focus"], "ast": c["ast"], "contract": c["contract"], "ev": True} for c in cases[:60]]
         res = chk.replay("schema-contract", good, "st_good", workers=8)
         events, n = collect_events(res)
         v, tr, done = validate(chk, "J5CompileTraceMC.tla", "J5Compile_trace.cfg", events, "st_ok", ("LawNumbers", "LawEnumNumbers", "LawNames", "LawAppend"))
@@ -524,7 +534,7 @@ def selftest(prop):
         for c in leaf:
             pre, h = c["_pre"], c["hist"]
             befores = [{"ast": pre[k], "edits": [e["kind"] for e in h[k:]], "listed": True} for k in range(len(h) - 1, -1, -1)]
-            payload.append({"id": c["id"], "focus": c["focus"], "ast": c["ast"], "befores": befores})
+            payload.append({"id": c["id"], "focus": c["focus"], "ast": c["ast"], "befores": befores, "ev": True})
         res = chk.replay("schema-append", payload, "st_good", workers=8)
         if any((e.get("out") or {}).get("viol") for e in res):
             fail("pristine histories flagged")
@@ -542,7 +552,7 @@ def selftest(prop):
                             d["fields"][0], d["fields"][-1] = d["fields"][-1], d["fields"][0]
                             done_swap = True
             if done_swap:
-                bad.append({"id": p["id"] + "x", "focus": p["focus"], "ast": a, "befores": p["befores"]})
+                bad.append({"id": p["id"] + "x", "focus": p["focus"], "ast": a, "befores": p["befores"], "ev": True})
         res = chk.replay("schema-append", bad, "st_swap", workers=8)
         missed = sum(1 for e in res if not (e.get("out") or {}).get("viol") and not ((e.get("out") or {}).get("obs") or {}).get("rejected"))
         if not bad or missed:
